@@ -179,6 +179,10 @@ def check(run):
                 continue
             if not all(np.array_equal(np.array(v.pose), b) for v, b in zip(e.vertices, before)):
                 run.violation(dict(key, outcome='pose-not-restored'), 'numerical differentiation left a vertex pose changed | edge %r' % (e_case,), dict(case=c, edge=n))
+            if not isinstance(jacs, (list, tuple)) or len(jacs) != len(e_case['vs']):
+                run.violation(dict(key, outcome='shape'), 'calc_jacobians returned %r Jacobians for an edge over %d vertices | edge %r' % (
+                    len(jacs) if hasattr(jacs, '__len__') else type(jacs).__name__, len(e_case['vs']), e_case), dict(case=c, edge=n))
+                continue
             J = obs['jac'][n]
             off = 0
             tol = 2e-5 * (1 + S)
@@ -211,8 +215,10 @@ def check(run):
                 es.factor = factor
                 try:
                     jacs = es.calc_jacobians()
+                    if len(jacs) != len(e_case['vs']):
+                        raise ValueError('%d Jacobians for an edge over %d vertices' % (len(jacs), len(e_case['vs'])))
                 except Exception as ex:  # noqa
-                    run.violation(dict(part='jacobian', family='scaled-range', outcome='raised'), 'calc_jacobians raised %r' % (ex,), dict(case=c, edge=n))
+                    run.violation(dict(part='jacobian', family='scaled-range', outcome='raised'), 'calc_jacobians raised / returned %r' % (ex,), dict(case=c, edge=n))
                     continue
                 off = 0
                 for j, x in enumerate(e_case['vs']):
